@@ -147,8 +147,17 @@ def translate(snap):
 
 
 def coq_makefile():
-    if not os.path.exists(os.path.join(COQ, 'Makefile')) or \
-       os.path.getmtime(os.path.join(COQ, 'Makefile')) < os.path.getmtime(os.path.join(COQ, '_CoqProject')):
+    """_CoqProject lists every .v file present under coq/ (regenerated when the set changes)."""
+    vs = []
+    for root, _, files in os.walk(COQ):
+        for fn in files:
+            if fn.endswith('.v'):
+                vs.append(os.path.relpath(os.path.join(root, fn), COQ))
+    text = '-Q . Iodine\n' + '\n'.join(sorted(vs)) + '\n'
+    pp = os.path.join(COQ, '_CoqProject')
+    old = open(pp).read() if os.path.exists(pp) else ''
+    if old != text or not os.path.exists(os.path.join(COQ, 'Makefile')):
+        open(pp, 'w').write(text)
         run(['coq_makefile', '-f', '_CoqProject', '-o', 'Makefile'], cwd=COQ, check=True)
 
 
@@ -248,27 +257,33 @@ def prove(prop_id, timeout=1800):
     return res
 
 
-def build_model_driver():
-    """Extract the model (Extract.vo) and build the OCaml driver.  Returns (ok, path, log)."""
-    rc, out = coq_make(['Extract.vo'])
+def build_model_driver(prop):
+    """Extract the model (Extract_<prop>.vo -> extracted/model_<prop>.ml) and build the OCaml
+    driver drvlib.ml + drv_<prop>.ml + drvmain.ml.  Returns (ok, path, log)."""
+    lp = prop.lower()
+    rc, out = coq_make(['Extract_%s.vo' % prop])
     if rc != 0:
         return False, None, out[-4000:]
-    with Lock('coq'):
+    with Lock('ocaml-' + lp):
         os.makedirs(BUILD, exist_ok=True)
         src = os.path.join(COQ, 'extracted')
-        stamp = os.path.join(BUILD, 'model_driver.stamp')
+        stamp = os.path.join(BUILD, 'model_%s.stamp' % lp)
         h = hashlib.sha256()
-        for fn in ('model.ml', 'model.mli'):
+        for fn in ('model_%s.ml' % lp, 'model_%s.mli' % lp):
             h.update(open(os.path.join(src, fn), 'rb').read())
-        h.update(open(os.path.join(VERIF, 'ocaml', 'driver.ml'), 'rb').read())
-        exe = os.path.join(BUILD, 'model_driver')
+        drv = ''
+        for fn in ('drvlib.ml', 'drv_%s.ml' % lp, 'drvmain.ml'):
+            drv += open(os.path.join(VERIF, 'ocaml', fn)).read() + '\n'
+        h.update(drv.encode())
+        exe = os.path.join(BUILD, 'model_%s' % lp)
         if os.path.exists(exe) and os.path.exists(stamp) and open(stamp).read() == h.hexdigest():
             return True, exe, ''
-        od = os.path.join(BUILD, 'ocaml')
+        od = os.path.join(BUILD, 'ocaml_' + lp)
+        shutil.rmtree(od, ignore_errors=True)
         os.makedirs(od, exist_ok=True)
-        for fn in ('model.ml', 'model.mli'):
-            shutil.copy(os.path.join(src, fn), od)
-        shutil.copy(os.path.join(VERIF, 'ocaml', 'driver.ml'), od)
+        shutil.copy(os.path.join(src, 'model_%s.ml' % lp), os.path.join(od, 'model.ml'))
+        shutil.copy(os.path.join(src, 'model_%s.mli' % lp), os.path.join(od, 'model.mli'))
+        open(os.path.join(od, 'driver.ml'), 'w').write(drv)
         rc, out = run(['ocamlfind', 'ocamlopt', '-O3', '-w', '-a', 'model.mli', 'model.ml', 'driver.ml', '-o', exe], cwd=od)
         if rc != 0:
             return False, None, out[-4000:]
@@ -497,7 +512,7 @@ def prepare(rep, harnesses=('pure',), sanitize=None, prove_it=True, proof_timeou
     rep.cov['trusted_base'] = list(STD_TRUSTED)
     ctx.model = None
     if ok:
-        mok, exe, lg = build_model_driver()
+        mok, exe, lg = build_model_driver(rep.id)
         if mok:
             ctx.model = exe
         else:
@@ -507,7 +522,7 @@ def prepare(rep, harnesses=('pure',), sanitize=None, prove_it=True, proof_timeou
     ctx.exe = {}
     ctx.san = {}
     for h in harnesses:
-        spec = HARNESSES[h]
+        spec = HARNESSES[h] or pure_harness(rep.id)
         hok, exe, lg = build_harness(ctx.snap, h, spec['harness'], spec['repo'], ctx.work, wraps=spec.get('wraps', ()))
         if hok:
             ctx.exe[h] = exe
@@ -528,6 +543,10 @@ def prepare(rep, harnesses=('pure',), sanitize=None, prove_it=True, proof_timeou
     return ctx
 
 
+def pure_harness(prop):
+    return dict(harness=['hmain.c', 'h_%s.c' % prop.lower()], repo=PURE_SRCS, wraps=['time'])
+
+
 HARNESSES = {
-    'pure': dict(harness=['pure.c'], repo=PURE_SRCS, wraps=['time']),
+    'pure': None,   # resolved per property: hmain.c + h_<id>.c + the stateless repo objects
 }
